@@ -7,6 +7,11 @@ theorem Vals.ind {P : Vals → Prop} (h0 : P .nil) (h1 : ∀ v r, P r → P (.co
   | .nil => h0
   | .cons v r => h1 v r (Vals.ind h0 h1 r)
 
+theorem Fields.ind {P : Fields → Prop} (h0 : P .nil)
+    (h1 : ∀ name minV maxV tag d t rest, P rest → P (.cons name minV maxV tag d t rest)) : ∀ fs, P fs
+  | .nil => h0
+  | .cons name minV maxV tag d t rest => h1 name minV maxV tag d t rest (Fields.ind h0 h1 rest)
+
 /-! ### every encoding is at least `minW` long -/
 
 theorem encPrim_len (p : Prim) (v : Val) (bs : Bytes) (h : encPrim p v = some bs) : primW p ≤ bs.length := by
